@@ -679,7 +679,13 @@ def run_plan(plan, sched_seed=None, sched_replay=None):
 
     if established and expect is not None:
         sim.probes['handshake_ok'] += 1
-        sconn = owners['s'][0].conn if owners['s'] else None
+        # (with a second client, the listener may accept the two in either
+        # order: the peer of the observed client is the server connection
+        # that shares its session identifier -- if there is one)
+        sconns = [o.conn for o in owners['s'] if o.conn is not None]
+        sconn = next((x for x in sconns
+                      if x._session_id == conn._session_id),
+                     sconns[0] if sconns else None)
 
         if sconn is None or conn._session_id != sconn._session_id or \
                 not conn._session_id:
